@@ -307,7 +307,19 @@ def none_vs_truthiness(project: Project, module_prefix: str):
     for q, fi in sorted(project.functions.items()):
         if not q.startswith(module_prefix) or not isinstance(fi.node, ast.FunctionDef):
             continue
-        for n in ast.walk(fi.node):
+        # a numeric parameter whose default is None: None is its 'not given' marker by signature
+        a = fi.node.args
+        pos = a.posonlyargs + a.args
+        dflt = dict(zip([x.arg for x in pos[len(pos) - len(a.defaults):]], a.defaults))
+        dflt.update({x.arg: d for x, d in zip(a.kwonlyargs, a.kw_defaults) if d is not None})
+        for x in pos + a.kwonlyargs:
+            d = dflt.get(x.arg)
+            ann = ast.unparse(x.annotation) if x.annotation is not None else ""
+            if isinstance(d, ast.Constant) and d.value is None and any(t in ann for t in ("float", "int")) \
+                    and "bool" not in ann and "list" not in ann.lower():
+                none_tested.setdefault((fi.qualname, x.arg), []).append((fi, x))
+        view = fn_view(project, fi)
+        for n in ast.walk(view):
             if isinstance(n, ast.Compare) and len(n.ops) == 1 and isinstance(n.ops[0], (ast.Is, ast.IsNot, ast.Eq, ast.NotEq)) \
                     and isinstance(n.comparators[0], ast.Constant) and n.comparators[0].value is None:
                 k = key(fi, n.left)
